@@ -212,6 +212,13 @@ def bookkeeping_rule(ctx, R4, keys):
                 nodes = [c.bb for c in b.calls_to(ACC + "::" + n)]
             good, hit = unreachable_without(b, ok_own, removed_nodes=nodes)
             ctx.require(R4, bool(nodes) and good, "%s:%s" % (b.file, b.line), "%s: Ok(()) only after account.%s()" % (key.rsplit("::", 1)[1], n), [key, "must-follow", n])
+        # what is saved is the UPDATED record: after each bookkeeping call a save follows before success (a save placed before the update
+        # writes the old fingerprint: after a restart the change is sent again, authorised by a key the CA no longer holds)
+        save_nodes = [p.bb for p in polls(b, ACC + "::save")]
+        for n in needs:
+            for c in b.calls_to(ACC + "::" + n):
+                r_ = b.reachable_after(c.bb, removed_nodes=save_nodes)
+                ctx.require(R4, not (set(ok_own) & r_), c.where(), "%s: account.save() follows account.%s() before success" % (key.rsplit("::", 1)[1], n), [key, "saved-before-update", n])
         # the request precedes the bookkeeping
         posts = [p.bb for p in b.calls if p.fn == POLL and p.res and p.res.startswith("acmed::acme_proto::http::")]
         for n in needs:
